@@ -487,7 +487,8 @@ def reject(rep, ex: Explorer, grammar):
             if entry_eof.get(entry):
                 rep.ok("REJECT.eof", site, f"entry rule {entry}", "the entry rule itself ends with EOF")
                 continue
-            la = [(i, ev) for i, ev in calls if ev.method == "LA" and ev.typ == "CommonTokenStream" and i > ei]
+            # the NEXT token (lookahead 1) must be end of input
+            la = [(i, ev) for i, ev in calls if ev.method == "LA" and ev.typ == "CommonTokenStream" and i > ei and ev.args and ev.args[0] == Const(1)]
             checked = False
             for k, v in p.decisions:
                 if k[0] == "cmp" and k[1] == "==" and any(isinstance(x, tuple) and x[:1] == ("ext",) and str(x[1]).endswith("EOF") for x in k[2:]) and any("LA" in repr(x) for x in k[2:]):
